@@ -23,3 +23,24 @@ package listoffsets
 //@   loop 0 after forall a, b :: 0 <= a && a < b && b < len(timestamps) ==> timestamps[a] != timestamps[b]
 //@   loop 1 invariant ts != nil && fresh(ts) && (forall a :: 0 <= a && a < rangeindex#0 ==> timestamps[a] != ts)
 //@   loop 2 invariant ts != nil && fresh(ts) && (forall a :: 0 <= a && a < rangeindex#0 ==> timestamps[a] != ts)
+
+//@ property C04 C19
+
+// Wire layout per version, from the Kafka protocol definition of this API (field order, types and the versions each field
+// exists in); the encoders and decoders are compiled from the struct tags, so the tags are checked against it.
+//@ wire Request
+//@   layout v1 ReplicaID int32, Topics []RequestTopic
+//@   layout v2..v5 ReplicaID int32, IsolationLevel int8, Topics []RequestTopic
+//@ wire RequestTopic
+//@   layout v1..v5 Topic string, Partitions []RequestPartition
+//@ wire RequestPartition
+//@   layout v1..v3 Partition int32, Timestamp int64
+//@   layout v4..v5 Partition int32, CurrentLeaderEpoch int32, Timestamp int64
+//@ wire Response
+//@   layout v1 Topics []ResponseTopic
+//@   layout v2..v5 ThrottleTimeMs int32, Topics []ResponseTopic
+//@ wire ResponseTopic
+//@   layout v1..v5 Topic string, Partitions []ResponsePartition
+//@ wire ResponsePartition
+//@   layout v1..v3 Partition int32, ErrorCode int16, Timestamp int64, Offset int64
+//@   layout v4..v5 Partition int32, ErrorCode int16, Timestamp int64, Offset int64, LeaderEpoch int32
